@@ -6,7 +6,7 @@ Lemmas about the repaired grpc-web client loop (`WebClient.Fixed`).
 -/
 namespace WebClientLemmas
 open WebClient WebClient.Fixed
-open WebServer (BodyEv Out flat notPending)
+open WebServer (BodyEv Out flat notPending dataOf)
 open Spec.GrpcWeb (WellFramed rawFrame flagOk frameBytes framesBytes lineOfSp trailersBlock trailersFrame
   lowerNameOk plainValueOk fieldValueOk tchar isUpper frameStructure frameStructureAux encItems)
 open TMap (Pair)
@@ -115,6 +115,42 @@ theorem rawFrame_length (fl : UInt8) (p : Bytes) : (rawFrame fl p).length = p.le
   simp only [rawFrame, List.length_cons, List.length_append, u32be_length]
   omega
 
+/-- a sequence of complete MESSAGE frames (flag 0 or 1) -/
+def MsgFramed (X : Bytes) : Prop :=
+  ∃ its : List (UInt8 × Bytes),
+    (∀ i ∈ its, (i.1 = 0 ∨ i.1 = 1) ∧ i.2.length < 4294967296) ∧ X = encItems its
+
+theorem mf_nil : MsgFramed [] := ⟨[], ⟨fun _ h => (by cases h), rfl⟩⟩
+
+theorem mf_append {a b : Bytes} (ha : MsgFramed a) (hb : MsgFramed b) : MsgFramed (a ++ b) := by
+  obtain ⟨ia, ha1, ha2⟩ := ha
+  obtain ⟨ib, hb1, hb2⟩ := hb
+  refine ⟨ia ++ ib, ?_, ?_⟩
+  · intro i hi
+    rcases List.mem_append.1 hi with h | h
+    · exact ha1 i h
+    · exact hb1 i h
+  · rw [encItems, List.flatMap_append, ha2, hb2]; rfl
+
+theorem mf_frame (fl : UInt8) (p : Bytes) (hf : fl = 0 ∨ fl = 1) (hp : p.length < 4294967296) :
+    MsgFramed (rawFrame fl p) := by
+  refine ⟨[(fl, p)], ?_, ?_⟩
+  · intro i hi
+    have : i = (fl, p) := List.mem_singleton.1 hi
+    subst this
+    exact ⟨hf, hp⟩
+  · rw [encItems, List.flatMap_cons, List.flatMap_nil, List.append_nil]
+
+theorem mf_wf {X : Bytes} (h : MsgFramed X) : WellFramed X := by
+  obtain ⟨its, h1, h2⟩ := h
+  refine ⟨its, ?_, h2⟩
+  intro i hi
+  obtain ⟨hf, hl⟩ := h1 i hi
+  refine ⟨?_, hl⟩
+  rcases hf with h0 | h1'
+  · exact Or.inl h0
+  · exact Or.inr (Or.inl h1')
+
 /-- what `hdr5` returns: the announced length `n` is the big-endian reading of bytes 1..4 -/
 theorem hdr5_spec {D : Bytes} {h : UInt8} {n : Nat} {rest : Bytes}
     (hh : hdr5 D = some (h, n, rest)) :
@@ -149,9 +185,9 @@ theorem take_len (rest : Bytes) (n : Nat) (hn : ¬ rest.length < n) : (rest.take
 /-- What `find_trailers` walks over is a sequence of complete message frames; a reported
 trailers frame has its five header bytes there and (after the fix) its whole block. -/
 theorem scan_sound (fixed : Bool) : ∀ (f : Nat) (D : Bytes),
-    (∀ l, scan fixed f D = .trailer l → l ≤ D.length ∧ WellFramed (D.take l) ∧
+    (∀ l, scan fixed f D = .trailer l → l ≤ D.length ∧ MsgFramed (D.take l) ∧
       ∃ n rest, hdr5 (D.drop l) = some (128, n, rest) ∧ (fixed = true → ¬ rest.length < n)) ∧
-    (∀ l, scan fixed f D = .done l → l ≤ D.length ∧ WellFramed (D.take l)) := by
+    (∀ l, scan fixed f D = .done l → l ≤ D.length ∧ MsgFramed (D.take l)) := by
   intro f
   induction f with
   | zero => intro D; simp [scan]
@@ -164,7 +200,7 @@ theorem scan_sound (fixed : Bool) : ∀ (f : Nat) (D : Bytes),
       refine ⟨(by intro l hl; cases hl), ?_⟩
       intro l hl
       cases hl
-      exact ⟨Nat.zero_le _, by simpa using wf_nil⟩
+      exact ⟨Nat.zero_le _, by simpa using mf_nil⟩
     | some x =>
       obtain ⟨h, n, rest⟩ := x
       obtain ⟨a, b, c, d, hD, hu, hn32⟩ := hdr5_spec hh
@@ -179,7 +215,7 @@ theorem scan_sound (fixed : Bool) : ∀ (f : Nat) (D : Bytes),
           refine ⟨?_, (by intro l hl; cases hl)⟩
           intro l hl
           cases hl
-          refine ⟨Nat.zero_le _, by simpa using wf_nil, n, rest, by simpa using hh, ?_⟩
+          refine ⟨Nat.zero_le _, by simpa using mf_nil, n, rest, by simpa using hh, ?_⟩
           intro hf
           simpa [hf] using hinc
       · simp only [h128, if_false]
@@ -189,13 +225,10 @@ theorem scan_sound (fixed : Bool) : ∀ (f : Nat) (D : Bytes),
           · simp only [hlt, if_true]
             exact ⟨(by intro l hl; cases hl), (by intro l hl; cases hl)⟩
           · simp only [hlt, if_false]
-            have hfl : flagOk h := by
-              simp only [Bool.or_eq_true, decide_eq_true_eq] at hflag
-              rcases hflag with h0 | h1
-              · exact Or.inl h0
-              · exact Or.inr (Or.inl h1)
+            have hfl : h = 0 ∨ h = 1 := by
+              simpa only [Bool.or_eq_true, decide_eq_true_eq] using hflag
             have hsplit := split_frame h a b c d rest n hu hlt
-            have hwf := wf_frame h (rest.take n) hfl (by rw [take_len rest n hlt]; exact hn32)
+            have hwf := mf_frame h (rest.take n) hfl (by rw [take_len rest n hlt]; exact hn32)
             have hflen : (rawFrame h (rest.take n)).length = n + 5 := by
               rw [rawFrame_length, take_len rest n hlt]
             obtain ⟨iht, ihd⟩ := ih (rest.drop n)
@@ -212,7 +245,7 @@ theorem scan_sound (fixed : Bool) : ∀ (f : Nat) (D : Bytes),
                 refine ⟨?_, ?_, n', rest', ?_, h4⟩
                 · rw [List.length_append, hflen]; omega
                 · rw [e, List.take_length_add_append]
-                  exact wf_append hwf h2
+                  exact mf_append hwf h2
                 · rw [e, List.drop_length_add_append]; exact h3
               | done l' => rw [hs] at hl; cases hl
               | incomplete => rw [hs] at hl; cases hl
@@ -228,7 +261,7 @@ theorem scan_sound (fixed : Bool) : ∀ (f : Nat) (D : Bytes),
                 refine ⟨?_, ?_⟩
                 · rw [List.length_append, hflen]; omega
                 · rw [e, List.take_length_add_append]
-                  exact wf_append hwf h2
+                  exact mf_append hwf h2
               | trailer l' => rw [hs] at hl; cases hl
               | incomplete => rw [hs] at hl; cases hl
               | bad => rw [hs] at hl; cases hl
@@ -248,7 +281,8 @@ theorem onTrailer_consumes {st : St} {len : Nat}
     (hs : findTrailers true st.decoded = .trailer len) :
     (∀ o st', onTrailer st len = .emit o st' → Consumes st st') ∧
     (∀ st', onTrailer st len = .again st' → Consumes st st') := by
-  obtain ⟨hle, hwf, n, rest, hh, hcomp⟩ := (scan_sound true _ st.decoded).1 len hs
+  obtain ⟨hle, hmf, n, rest, hh, hcomp⟩ := (scan_sound true _ st.decoded).1 len hs
+  have hwf := mf_wf hmf
   obtain ⟨a, b, c, d, hD, hu, hn32⟩ := hdr5_spec hh
   have hlt : ¬ rest.length < n := hcomp rfl
   have hsplit := split_frame 128 a b c d rest n hu hlt
@@ -326,8 +360,8 @@ theorem afterPoll_consumes {eof : Bool} {st : St} :
       refine ⟨?_, (by intro st' h; cases h)⟩
       intro o st' h
       cases h
-      obtain ⟨_, hwf⟩ := (scan_sound true _ st.decoded).2 len hs
-      exact ⟨st.decoded.take len, (List.take_append_drop _ _).symm, hwf⟩
+      obtain ⟨_, hmf⟩ := (scan_sound true _ st.decoded).2 len hs
+      exact ⟨st.decoded.take len, (List.take_append_drop _ _).symm, mf_wf hmf⟩
 
 /-- if a well-framed piece is taken off a buffer that, with what is still to come, is not
 well-framed, the remainder (with what is still to come) is not well-framed either -/
@@ -1121,5 +1155,233 @@ theorem wf_prefix_boundary : ∀ (items : List (UInt8 × Bytes)),
       refine ⟨j + 1, ?_⟩
       rw [hX', hj, hfl, hpp]
       simp [encItems]
+
+/-! ### on a clean end, the data delivered is exactly the message frames of the body -/
+
+def validItems (its : List (UInt8 × Bytes)) : Prop := ∀ i ∈ its, flagOk i.1 ∧ i.2.length < 4294967296
+
+/-- the message frames among `its` -/
+def msgsOf (its : List (UInt8 × Bytes)) : List (UInt8 × Bytes) := its.filter (fun i => i.1 != 128)
+
+/-- `st'` is `st` minus the frames `its` at the front of the buffer; `out` are the message
+frames among them -/
+def Takes (st st' : St) (out : Bytes) : Prop :=
+  ∃ its, validItems its ∧ st.decoded = encItems its ++ st'.decoded ∧ out = encItems (msgsOf its)
+
+theorem encItems_append (a b : List (UInt8 × Bytes)) : encItems (a ++ b) = encItems a ++ encItems b := by
+  simp [encItems]
+
+theorem msgsOf_append (a b : List (UInt8 × Bytes)) : msgsOf (a ++ b) = msgsOf a ++ msgsOf b := by
+  simp [msgsOf]
+
+theorem takes_refl (st : St) : Takes st st [] := ⟨[], ⟨fun _ h => (by cases h), rfl, rfl⟩⟩
+
+theorem msgsOf_msgs {its : List (UInt8 × Bytes)}
+    (h : ∀ i ∈ its, (i.1 = 0 ∨ i.1 = 1) ∧ i.2.length < 4294967296) : msgsOf its = its := by
+  simp only [msgsOf, List.filter_eq_self]
+  intro i hi
+  rcases (h i hi).1 with h0 | h1
+  · rw [h0]; decide
+  · rw [h1]; decide
+
+theorem valid_of_msgs {its : List (UInt8 × Bytes)}
+    (h : ∀ i ∈ its, (i.1 = 0 ∨ i.1 = 1) ∧ i.2.length < 4294967296) : validItems its := by
+  intro i hi
+  obtain ⟨hf, hl⟩ := h i hi
+  refine ⟨?_, hl⟩
+  rcases hf with h0 | h1
+  · exact Or.inl h0
+  · exact Or.inr (Or.inl h1)
+
+theorem onTrailer_takes {st : St} {len : Nat}
+    (hs : findTrailers true st.decoded = .trailer len) :
+    (∀ o st', onTrailer st len = .emit o st' → Takes st st' (dataOf [o])) ∧
+    (∀ st', onTrailer st len = .again st' → Takes st st' []) := by
+  obtain ⟨hle, ⟨mits, hm1, hm2⟩, n, rest, hh, hcomp⟩ := (scan_sound true _ st.decoded).1 len hs
+  obtain ⟨a, b, c, d, hD, hu, hn32⟩ := hdr5_spec hh
+  have hlt : ¬ rest.length < n := hcomp rfl
+  have hsplit := split_frame 128 a b c d rest n hu hlt
+  have hflen : (rawFrame 128 (rest.take n)).length = 5 + n := by
+    rw [rawFrame_length, take_len rest n hlt]; omega
+  have htake : (st.decoded.drop len).take (5 + n) = rawFrame 128 (rest.take n) := by
+    rw [hD, hsplit, ← hflen]
+    exact List.take_left' rfl
+  have key : ∀ tr, Takes st { decoded := (st.decoded.drop len).drop (5 + n), trailers := tr }
+      (st.decoded.take len) := by
+    intro tr
+    refine ⟨mits ++ [(128, rest.take n)], ?_, ?_, ?_⟩
+    · intro i hi
+      rcases List.mem_append.1 hi with h | h
+      · exact valid_of_msgs hm1 i h
+      · have : i = (128, rest.take n) := List.mem_singleton.1 h
+        subst this
+        exact ⟨Or.inr (Or.inr rfl), by rw [take_len rest n hlt]; exact hn32⟩
+    · rw [encItems_append, ← hm2]
+      have e1 : encItems [(128, rest.take n)] = rawFrame 128 (rest.take n) := by simp [encItems]
+      rw [e1, ← htake, List.append_assoc, List.take_append_drop, List.take_append_drop]
+    · rw [msgsOf_append, msgsOf_msgs hm1]
+      have : msgsOf [((128 : UInt8), rest.take n)] = [] := by simp [msgsOf]
+      rw [this, List.append_nil, hm2]
+  unfold onTrailer
+  rw [hh]
+  simp only
+  cases decodeTrailersFrame true ((st.decoded.drop len).take (5 + n)) with
+  | none => exact ⟨(by intro o st' h; cases h), (by intro st' h; cases h)⟩
+  | some t? =>
+    simp only
+    by_cases hl0 : len > 0
+    · simp only [hl0, if_true]
+      refine ⟨?_, (by intro st' h; cases h)⟩
+      intro o st' h
+      cases h
+      simpa [dataOf] using key _
+    · simp only [hl0, if_false]
+      refine ⟨(by intro o st' h; cases h), ?_⟩
+      intro st' h
+      cases h
+      have h0 : len = 0 := by omega
+      subst h0
+      simpa using key _
+
+theorem onExhausted_takes {eof : Bool} {st : St} :
+    (∀ o st', onExhausted eof st = .emit o st' → Takes st st' (dataOf [o])) ∧
+    (∀ st', onExhausted eof st = .again st' → Takes st st' []) := by
+  unfold onExhausted
+  constructor
+  · intro o st' h
+    split at h
+    · cases h
+    · split at h
+      · cases h
+      · split at h
+        · cases h; exact takes_refl _
+        · cases h
+  · intro st' h
+    split at h
+    · cases h; exact takes_refl _
+    · split at h
+      · cases h
+      · split at h <;> cases h
+
+theorem afterPoll_takes {eof : Bool} {st : St} :
+    (∀ o st', afterPoll eof st = .emit o st' → Takes st st' (dataOf [o])) ∧
+    (∀ st', afterPoll eof st = .again st' → Takes st st' []) := by
+  unfold afterPoll
+  cases hs : findTrailers true st.decoded with
+  | bad => exact ⟨(by intro o st' h; cases h), (by intro st' h; cases h)⟩
+  | trailer len => exact onTrailer_takes hs
+  | incomplete =>
+    simp only
+    constructor
+    · intro o st' h; split at h <;> cases h
+    · intro st' h
+      split at h
+      · cases h
+      · cases h; exact takes_refl _
+  | done len =>
+    simp only
+    by_cases hl0 : len = 0
+    · simp only [hl0, if_true]; exact onExhausted_takes
+    · simp only [hl0, if_false]
+      refine ⟨?_, (by intro st' h; cases h)⟩
+      intro o st' h
+      cases h
+      obtain ⟨_, mits, hm1, hm2⟩ := (scan_sound true _ st.decoded).2 len hs
+      refine ⟨mits, valid_of_msgs hm1, ?_, ?_⟩
+      · rw [← hm2]; exact (List.take_append_drop _ _).symm
+      · rw [msgsOf_msgs hm1, ← hm2]; simp [dataOf]
+
+/-- the conclusion about a run that starts with `D` buffered and `fut` still to come -/
+def CleanSpec (D fut : Bytes) (outs : List Out) : Prop :=
+  ∃ its, validItems its ∧ D ++ fut = encItems its ∧ dataOf outs = encItems (msgsOf its)
+
+theorem cleanSpec_step {st st' : St} {fut out : Bytes} {outs : List Out}
+    (ht : Takes st st' out) (h : CleanSpec st'.decoded fut outs) (o : List Out)
+    (ho : dataOf (o ++ outs) = out ++ dataOf outs) :
+    CleanSpec st.decoded fut (o ++ outs) := by
+  obtain ⟨its1, hv1, hd1, hout⟩ := ht
+  obtain ⟨its2, hv2, hd2, hdata⟩ := h
+  refine ⟨its1 ++ its2, ?_, ?_, ?_⟩
+  · intro i hi
+    rcases List.mem_append.1 hi with h | h
+    · exact hv1 i h
+    · exact hv2 i h
+  · rw [hd1, List.append_assoc, hd2, encItems_append]
+  · rw [ho, hout, hdata, msgsOf_append, encItems_append]
+
+theorem getLast_eos_tail {o : Out} {l : List Out} (hne : l ≠ [])
+    (h : (o :: l).getLast? = some .eos) : l.getLast? = some .eos := by
+  rwa [List.getLast?_cons_of_ne_nil hne] at h
+
+theorem drain_clean : ∀ (f : Nat) (st : St), (drain f st).getLast? = some .eos →
+    CleanSpec st.decoded [] (drain f st) := by
+  intro f
+  induction f with
+  | zero => intro st h; simp [drain] at h
+  | succ f ih =>
+    intro st h
+    simp only [drain] at h ⊢
+    cases hp : afterPoll true st with
+    | stop os =>
+      rw [hp] at h
+      simp only at h ⊢
+      rcases afterPoll_stop hp with rfl | ⟨rfl, _, hd⟩
+      · simp at h
+      · exact ⟨[], ⟨fun _ h => (by cases h), (by simp [hd, encItems]), (by simp [dataOf, msgsOf, encItems])⟩⟩
+    | emit o st' =>
+      rw [hp] at h
+      simp only at h ⊢
+      have ht := afterPoll_takes.1 o st' hp
+      have h' := getLast_eos_tail (drain_ne_nil f st') h
+      have := cleanSpec_step ht (ih st' h') [o] (by cases o <;> simp [dataOf])
+      simpa using this
+    | again st' =>
+      rw [hp] at h
+      simp only at h ⊢
+      have ht := afterPoll_takes.2 st' hp
+      have := cleanSpec_step ht (ih st' h) [] (by simp)
+      simpa using this
+
+theorem run_clean : ∀ (evs : List BodyEv) (st : St), (run st evs).getLast? = some .eos →
+    CleanSpec st.decoded (flat evs) (run st evs) := by
+  intro evs
+  induction evs with
+  | nil =>
+    intro st h
+    simpa [flat, run] using drain_clean _ st (by simpa [run] using h)
+  | cons e r ih =>
+    intro st h
+    cases e with
+    | pending => simpa [flat, run] using ih st (by simpa [run] using h)
+    | err => simp [run] at h
+    | trailers t =>
+      have := ih { st with trailers := mergeTrailers st.trailers t } (by simpa [run] using h)
+      simpa [flat, run] using this
+    | data b =>
+      simp only [run] at h ⊢
+      have hflat : ∀ (X : Bytes), (X ++ b) ++ flat r = X ++ flat (BodyEv.data b :: r) := by
+        intro X; simp [flat]
+      cases hp : afterPoll false { st with decoded := st.decoded ++ b } with
+      | stop os =>
+        rw [hp] at h
+        simp only at h
+        rcases afterPoll_stop hp with rfl | ⟨_, he, _⟩
+        · simp at h
+        · cases he
+      | emit o st' =>
+        rw [hp] at h
+        simp only at h ⊢
+        have ht := afterPoll_takes.1 o st' hp
+        have h' := getLast_eos_tail (run_ne_nil r st') h
+        have := cleanSpec_step ht (ih st' h') [o] (by cases o <;> simp [dataOf])
+        obtain ⟨its, hv, hd, hdata⟩ := this
+        exact ⟨its, hv, by rw [← hflat]; exact hd, by simpa using hdata⟩
+      | again st' =>
+        rw [hp] at h
+        simp only at h ⊢
+        have ht := afterPoll_takes.2 st' hp
+        have := cleanSpec_step ht (ih st' h) [] (by simp)
+        obtain ⟨its, hv, hd, hdata⟩ := this
+        exact ⟨its, hv, by rw [← hflat]; exact hd, by simpa using hdata⟩
 
 end WebClientLemmas
